@@ -612,8 +612,17 @@ pub fn decoder_matrix(max_r: usize, max_n: usize) -> impl Strategy<Value = Mat> 
     shuffled(decoder_matrix_sorted(max_r, max_n))
 }
 
+/// the same classes with the number of columns drawn from min_n..=max_n
+pub fn decoder_matrix_range(max_r: usize, min_n: usize, max_n: usize) -> impl Strategy<Value = Mat> {
+    shuffled(decoder_matrix_sorted_range(max_r, min_n, max_n))
+}
+
 fn decoder_matrix_sorted(max_r: usize, max_n: usize) -> impl Strategy<Value = Mat> {
-    (1..=max_r, 2..=max_n, 0..6u8).prop_flat_map(|(r, n, class)| {
+    decoder_matrix_sorted_range(max_r, 2, max_n)
+}
+
+fn decoder_matrix_sorted_range(max_r: usize, min_n: usize, max_n: usize) -> impl Strategy<Value = Mat> {
+    (1..=max_r, min_n.max(2)..=max_n, 0..6u8).prop_flat_map(|(r, n, class)| {
         let row = move |lo: usize, hi: usize| subset(n, lo.max(2)..=hi.max(2).min(n));
         let rows: BoxedStrategy<Vec<Vec<usize>>> = match class {
             // regular-ish sparse
